@@ -322,7 +322,7 @@ def analyse(res: Result, sim: simnet.Sim, desc: Dict[str, Any], out: Dict[str, A
 # real-time runs: Zeroconf() with its own loop thread, ServiceBrowser threads, close() from another thread
 
 
-def run_threads(res: Result, seed: int) -> None:
+def run_threads(res: Result, seed: int, variant: Optional[int] = None) -> None:
     from zeroconf import ServiceBrowser, ServiceListener, Zeroconf
     import zeroconf._core as core
     rng = random.Random(seed)
@@ -332,7 +332,7 @@ def run_threads(res: Result, seed: int) -> None:
     lock = threading.Lock()
 
     def viol(kind: str, detail: str) -> None:
-        res.violation("c17.threads", kind, detail, {}, {"seed": seed, "threads": True})
+        res.violation("c17.threads", kind, detail, {}, {"seed": seed, "threads": True, "variant": variant})
 
     class RealClock:
         @property
@@ -368,10 +368,16 @@ def run_threads(res: Result, seed: int) -> None:
             loop.set_exception_handler(handler)
             return loop
 
+    if variant is None:
+        variant = rng.randrange(4)
+    busy = variant % 4 == 0            # a listener that takes its time: close() has to wait for the browser thread
+
     class L(ServiceListener):
         def add_service(self, zc: Any, t: str, n: str) -> None:
             with lock:
                 events.append((time.monotonic(), "add " + n))
+            if busy and n.startswith("slow."):
+                time.sleep(0.7)
 
         def remove_service(self, zc: Any, t: str, n: str) -> None:
             with lock:
@@ -389,7 +395,7 @@ def run_threads(res: Result, seed: int) -> None:
         zc = Zeroconf()
         s = Svc(T1, "thr." + T1, "thr-host.local.", 80, b"", [b"\x0a\x00\x00\x01"], [], 120, 4500)
         info = R.make_info(s)
-        if rng.random() < 0.5:
+        if rng.random() < 0.5 and not busy:
             browser = ServiceBrowser(zc, T2, listener=L())
         else:
             zc.add_service_listener(T2, L())
@@ -406,7 +412,7 @@ def run_threads(res: Result, seed: int) -> None:
 
         th = threading.Thread(target=do_register, daemon=True)
         th.start()
-        time.sleep(rng.choice([0.0, 0.1, 0.3, 0.5]))
+        time.sleep(rng.choice([0.1, 0.2, 0.3]) if busy else rng.choice([0.0, 0.1, 0.3, 0.5]))
         # some traffic for the browser thread
         zc.loop.call_soon_threadsafe(net.inject_now, host, R.build_response([(("PTR", T2, ("x." + T2,)), 4500, False)], id_=1), ("10.0.0.9", 5353))
         # wait until the browser thread has delivered that announcement (logical quiescence instead of a fixed 50 ms)
@@ -421,12 +427,17 @@ def run_threads(res: Result, seed: int) -> None:
             zc.close()
             return
         # the blocking API as applications use it: either close() alone, or unregister_service() followed at once by close()
-        mode = rng.choice(["close", "unregister+close", "unregister+close"])
+        mode = "close" if variant % 4 in (0, 2) else "unregister+close"
         if mode == "unregister+close":
             if not reg_done.wait(15):
                 res.inconclusive.append("thread run: registration did not finish within 15 s (machine overloaded?)")
                 zc.close()
                 return
+
+        if busy:
+            # the browser thread is inside a slow callback while close() runs
+            zc.loop.call_soon_threadsafe(net.inject_now, host, R.build_response([(("PTR", T2, ("slow." + T2,)), 4500, False)], id_=2), ("10.0.0.9", 5353))
+            time.sleep(0.05)
 
         def do_close() -> None:
             if mode == "unregister+close" and not reg_err:
@@ -468,7 +479,24 @@ def run_threads(res: Result, seed: int) -> None:
             res.mon("c17.threads.goodbyes")
             if goodbyes != 3:
                 viol("goodbye_count_blocking_api", "unregister_service() followed by close(): %d goodbye datagram(s) for the announced service (expected 3)" % goodbyes)
-        res.cls("threads", mode, "goodbyes=%d" % goodbyes, "reg_err=%s" % (type(reg_err[0]).__name__ if reg_err else "none"))
+        # last word: whatever was announced must have been withdrawn afterwards
+        last_pos = last_bye = None
+        for e in net.trace:
+            m3, _ = wire.try_parse(e["data"], strict=False)
+            if m3 is None or not m3.is_response:
+                continue
+            for r in m3.answers:
+                if R.ident_of_wire(r) == s.ptr():
+                    if r.ttl > 0:
+                        last_pos = e["t"]
+                    else:
+                        last_bye = e["t"]
+        if last_pos is not None:
+            res.mon("c17.threads.withdrawn")
+            if last_bye is None or last_bye < last_pos:
+                viol("announced_not_withdrawn_blocking_api", "%s (busy listener: %s): the service was last multicast with a positive TTL and no goodbye followed before "
+                     "close() returned" % (mode, busy))
+        res.cls("threads", mode, "busy" if busy else "idle", "goodbyes=%d" % goodbyes, "reg_err=%s" % (type(reg_err[0]).__name__ if reg_err else "none"))
         try:
             zc.close()
         except Exception as e:
@@ -485,8 +513,8 @@ def run_shard(spec):
     rng = rng_for("c17", spec["seed"], spec["shard"])
     for _ in range(spec["per"]):
         run_scenario(res, rng.randrange(1 << 30))
-    for _ in range(spec.get("threads", 0)):
-        run_threads(res, rng.randrange(1 << 30))
+    for j in range(spec.get("threads", 0)):
+        run_threads(res, rng.randrange(1 << 30), variant=spec["shard"] * 2 + j)
     return res
 
 
@@ -533,7 +561,7 @@ def replay(blob):
     if blob.get("witness"):
         return witnesses({})
     if blob.get("threads"):
-        run_threads(res, blob["seed"])
+        run_threads(res, blob["seed"], blob.get("variant"))
     else:
         run_scenario(res, blob["seed"])
     return res
